@@ -12,7 +12,7 @@ from vdriver import Query
 BU = ["mtbl/varint.c", "mtbl/fixed.c"]
 
 
-def bq(name, entry, kls, vls, ri, bufcap=64, p=None, tl=None, extra=None, timeout=1500, witness=False):
+def bq(name, entry, kls, vls, ri, bufcap=64, p=None, tl=None, extra=None, timeout=1500, witness=False, unwind=None):
     d = {"N": len(kls), "KLS": shapes.clist(kls), "VLS": shapes.clist(vls), "RI": ri, "BUFCAP": bufcap,
          "KLMAX": max([4] + kls), "VLMAX": max([4] + vls)}
     if p is not None:
@@ -23,7 +23,7 @@ def bq(name, entry, kls, vls, ri, bufcap=64, p=None, tl=None, extra=None, timeou
         d.update(extra)
     n = len(kls)
     us = {"ubuf_reserve.0": 1 if bufcap >= 64 else 6}
-    return Query(name, harness="c01_block.c", entry=entry, defines=d, units=BU, unwind=max(8, n + 3), unwindset=us,
+    return Query(name, harness="c01_block.c", entry=entry, defines=d, units=BU, unwind=unwind or max(8, n + 3), unwindset=us,
                  object_bits=12, timeout=timeout, mem_gb=10, witness=witness, leak_check=True,
                  sample={"entries": n, "key_lens": kls, "val_lens": vls, "restart_interval": ri, "builder_buffer": bufcap,
                          "content": "all key/value bytes symbolic, keys strictly increasing"})
@@ -40,6 +40,14 @@ def build(tier, seed):
                    ([1, 2, 3], [2, 1, 0], 1, 4), ([2, 2, 2, 2], [0, 0, 0, 0], 1, 16)]
     for i, (kls, vls, ri, cap) in enumerate(blocks):
         qs.append(bq("block_rt_%d_ri%d_cap%d" % (i, ri, cap), "h_block_roundtrip", kls, vls, ri, cap, witness=(i == 0)))
+    # lengths whose varints take two bytes (block.c's slow decode path, the builder's varint encode): templated
+    # keys (order and shared-prefix lengths are the shape, every byte no comparison decides on is symbolic)
+    longs = [([1, 129], [0, 1], [128, 0], 2), ([130, 130], [0, 129], [0, 200], 1)]
+    if not quick:
+        longs += [([2, 129, 130], [0, 0, 128], [127, 128, 1], 2), ([128, 2, 131], [0, 1, 1], [1, 129, 0], 16), ([127, 128, 129], [0, 127, 128], [129, 0, 127], 1)]
+    for i, (kls, lcps, vls, ri) in enumerate(longs):
+        qs.append(bq("block_rt_long%d_ri%d" % (i, ri), "h_block_roundtrip", kls, vls, ri, 1024, witness=(i == 0), unwind=max(kls + vls) + 4,
+                     extra={"KT": shapes.cbytes2(shapes.key_templates(kls, lcps), max(kls))}))
     qs.append(bq("builder_init", "h_builder_init", [1], [1], 1, witness=True))
     # ---- writer half: every configuration axis, decoded independently ----
     shp = wc.standard_shapes(tier, "rt")
@@ -70,8 +78,8 @@ def build(tier, seed):
     meta = {
         "functions": wc.FUNCS + rc.FUNCS + ["block_iter_seek_to_last", "block_iter_prev"],
         "units": ["mtbl/writer.c", "mtbl/block_builder.c", "mtbl/block.c", "mtbl/reader.c"] + wc.UNITS,
-        "bounds": "block level: <= 4 entries, keys <= 3 bytes, restart interval 1..4, builder buffer growth from 4/8/16 bytes; file level: writer shapes as C09 (incl. compression ids 1..5, default and explicit levels, foreign prefix), reader shapes as C11; every value byte and every key byte not deciding order symbolic (block level: all key bytes symbolic)",
-        "outside": "mtbl_dump: main()'s getopt/hex_decode parsing and the non-hex (escaped string) output mode; writer and reader are not run in ONE query on the same bytes: the writer's file is judged by an independent decoder and the reader by an independent encoder of the same format description (DESIGN.md C01 split); real codecs in the loop (C15); keys/values >= 128 bytes; thread pool (C13)",
+        "bounds": "block level: <= 4 entries, keys <= 3 bytes (all bytes symbolic), restart interval 1..4, builder buffer growth from 4/8/16 bytes; plus <= 3 entries with key/value/shared-prefix lengths 127..131 and 200 (two-byte length varints; templated keys: bytes that decide order or are shared are fixed, the rest and all value bytes symbolic); file level: writer shapes as C09 (incl. compression ids 1..5, default and explicit levels, foreign prefix), reader shapes as C11; every value byte and every key byte not deciding order symbolic (block level: all key bytes symbolic)",
+        "outside": "mtbl_dump: main()'s getopt/hex_decode parsing and the non-hex (escaped string) output mode; writer and reader are not run in ONE query on the same bytes: the writer's file is judged by an independent decoder and the reader by an independent encoder of the same format description (DESIGN.md C01 split); real codecs in the loop (C15); keys/values >= 128 bytes at file level on the reader side (block level and writer side have 127..131-byte shapes); thread pool (C13)",
         "stubs": wc.STUBS + rc.STUBS,
         "assumptions": ["decoder (c_writer.c) and encoder (ref_encode.h) describe the same format"],
         "exhaustive": False,
